@@ -724,4 +724,81 @@ theorem addrsL_nodup : ∀ (cs : List Tree) (a : Addr) (k : Nat), (keptAddrsL (f
     have := snoc_prefix_inj p1 p2
     omega
 end
+/-! ## 9. find_path returns the unique match -/
+
+mutual
+theorem walk_addrs : ∀ (t : Tree) (a : Addr) (anc : List Str), (walk a anc t).map (·.addr) = addrs a t
+  | .node i n av cs, a, anc => by
+    simp only [walk, addrs, keptAddrs, List.map_cons]
+    rw [walkL_addrs cs a (anc ++ [n]) 0]
+theorem walkL_addrs : ∀ (cs : List Tree) (a : Addr) (anc : List Str) (k : Nat),
+    (walkL a anc k cs).map (·.addr) = keptAddrsL (fun _ => true) a k cs
+  | [], _, _, _ => by simp [walkL, keptAddrsL]
+  | c :: cs, a, anc, k => by
+    have h1 := walk_addrs c (a ++ [k]) anc
+    unfold addrs at h1
+    simp only [walkL, keptAddrsL, if_true, List.map_append]
+    rw [h1, walkL_addrs cs a anc (k + 1)]
+end
+
+theorem walk_nodup (t : Tree) (a : Addr) (anc : List Str) : (walk a anc t).Nodup := by
+  have h := addrs_nodup t a
+  rw [← walk_addrs t a anc] at h
+  exact List.Pairwise.of_map (·.addr) (fun a b hab e => hab (congrArg _ e)) h
+
+theorem eq_singleton_of_nodup {α : Type} : ∀ (l : List α) (v : α), l.Nodup → v ∈ l → (∀ w ∈ l, w = v) → l = [v]
+  | [], _, _, hv, _ => by simp at hv
+  | [x], v, _, hv, _ => by simp at hv; rw [hv]
+  | x :: y :: r, v, hn, _, h => by
+    have hx := h x (by simp)
+    have hy := h y (by simp)
+    rw [hx, hy] at hn
+    simp at hn
+
+/-- `find_path` returns `v` exactly when `v` is the one node whose `path_name` ends with the
+    (right-stripped) query -/
+theorem findPath_eq_some_iff (sep : Str) (anc : List Str) (t : Tree) (q : Str) (v : Visit) :
+    findPath sep anc t q = .ok (some v) ↔
+      v ∈ walk [] anc t ∧ (rstrip sep q) <:+ pathName sep v.names ∧
+        ∀ w ∈ walk [] anc t, (rstrip sep q) <:+ pathName sep w.names → w = v := by
+  constructor
+  · exact findPath_some sep anc t q v
+  · rintro ⟨h1, h2, h3⟩
+    have hf : (walk [] anc t).filter (fun v => (rstrip sep q).isSuffixOf (pathName sep v.names)) = [v] := by
+      apply eq_singleton_of_nodup _ _ (List.Pairwise.filter _ (walk_nodup t [] anc))
+      · rw [List.mem_filter]; exact ⟨h1, by simpa using h2⟩
+      · intro w hw
+        rw [List.mem_filter] at hw
+        exact h3 w hw.1 (by simpa using hw.2)
+    unfold findPath
+    simp only [hf]
+
+/-- what it means for the textual path `q` to designate the node at address `p` -/
+def Designates (treeSep : Str) (t : Tree) (sepArg : Str) (q : Str) (p : Addr) : Prop :=
+  ∃ v, v.addr = p ∧ v ∈ walk [] [] t ∧
+    (rstrip treeSep (replace sepArg treeSep q)) <:+ pathName treeSep v.names ∧
+    ∀ w ∈ walk [] [] t, (rstrip treeSep (replace sepArg treeSep q)) <:+ pathName treeSep w.names → w = v
+
+theorem locate_sound (treeSep : Str) (t : Tree) (sepArg : Str) :
+    ∀ (paths : List Str) (ps : List Addr), locate treeSep t sepArg paths = .ok ps →
+      ∀ qp ∈ paths.zip ps, Designates treeSep t sepArg qp.1 qp.2
+  | [], ps, h => by simp
+  | q :: qs, ps, h => by
+    simp only [locate] at h
+    split at h
+    · simp at h
+    · simp at h
+    · rename_i v hv
+      cases hr : locate treeSep t sepArg qs with
+      | error e => simp [hr, Except.map] at h
+      | ok ps' =>
+        simp only [hr, Except.map, Except.ok.injEq] at h
+        subst h
+        obtain ⟨h1, h2, h3⟩ := findPath_some _ _ _ _ _ hv
+        intro qp hqp
+        simp only [List.zip_cons_cons, List.mem_cons] at hqp
+        rcases hqp with e | hqp
+        · subst e; exact ⟨v, rfl, h1, h2, h3⟩
+        · exact locate_sound treeSep t sepArg qs ps' hr qp hqp
+
 end Helper
